@@ -268,7 +268,7 @@ def run(ctx):
     ri = ctx.mc("StrportsMC", ctx.pick("StrportsImpl.cfg", "StrportsImpl.thorough.cfg"), label="quoter as coded: behaviours printed")
     if not ri.ok:
         raise MachineryError("StrportsImpl run failed: " + ri.error)
-    behs = [json.loads(v[1]) for v in extract_printed(ri.out, "BEH")]
+    behs = [json.loads(j) for j in sorted({v[1] for v in extract_printed(ri.out, "BEH")})]   # sorted: TLC workers print in any order
     ctx.extra["impl_behaviours"] = len(behs)
     ctx.extra["impl_predicted_failures"] = sum(1 for b in behs if not b["ok"])
 
@@ -295,7 +295,7 @@ def run(ctx):
     ctx.exhaustive = True
     ctx.extra["exhaustive_text_len"] = L
     nex = len(traces)
-    for _ in range(ctx.pick(1500, 60000)):
+    for _ in range(ctx.pick(1500, 30000)):
         cfg, text = random_case(ctx.rng)
         traces.append(run_case(cfg, text))
     for t in traces:
